@@ -6,10 +6,20 @@
 (* initialisation (may fail), segment listing (may fail), done; close: mark,  *)
 (* stop workers + final flush, release.                                       *)
 EXTENDS Integers, FiniteSets, TLC
-CONSTANTS Handles, MaxFaults
-VARIABLES lock,      \* 0 = no LOCK file, else the handle that created it
-          hs,        \* handle state: "new" | "acq" | "counted" | "open" | "marked" | "stopped" | "closed" | "failed"
-          faults
+CONSTANTS
+  \* @type: Set(Int);
+  Handles,
+  \* @type: Int;
+  MaxFaults
+VARIABLES
+  \* 0 = no LOCK file, else the handle that created it
+  \* @type: Int;
+  lock,
+  \* handle state: "new" | "acq" | "counted" | "open" | "marked" | "stopped" | "closed" | "failed"
+  \* @type: Int -> Str;
+  hs,
+  \* @type: Int;
+  faults
 lvars == <<lock, hs, faults>>
 LInit == lock = 0 /\ hs = [h \in Handles |-> "new"] /\ faults = 0
 
@@ -34,6 +44,10 @@ Holding(h) == hs[h] \in {"acq", "counted", "open", "marked", "stopped"}
 OneOwner == Cardinality({h \in Handles : Holding(h)}) <= 1
 LockMatchesOwner == (lock # 0 => Holding(lock)) /\ (\A h \in Handles : Holding(h) => lock = h)
 NoLockLeftBehind == (\A h \in Handles : ~Holding(h)) => lock = 0        \* failed opens and completed closes leave no LOCK
+\* inductive invariant (discharged by Apalache for unbounded behaviours of 3 handles: Init => IndInv, IndInv /\ LNext => IndInv')
+States == {"new", "acq", "counted", "open", "marked", "stopped", "closed", "failed"}
+IndInv == /\ lock \in Handles \cup {0} /\ hs \in [Handles -> States] /\ faults \in 0..MaxFaults
+          /\ OneOwner /\ LockMatchesOwner /\ NoLockLeftBehind
 \* a successful Close releases ownership: the next open can succeed
 Reopenable == [][\A h \in Handles : (hs[h] = "stopped" /\ hs'[h] = "closed") => lock' = 0]_lvars
 =============================================================================
